@@ -9,3 +9,5 @@ open MtailVerif.C07
 #print axioms stamp_is_register
 #print axioms MtailVerif.C07.datum_skeletons
 #print axioms MtailVerif.C07.exec_skeletons
+#print axioms MtailVerif.C07.f_vm_vm_skeletons
+#print axioms MtailVerif.C07.f_datum_datum_skeletons
